@@ -263,8 +263,8 @@ public:
 	/*! copy ctor
 	  \param from presorted_set object to copy */
 	presorted_set(const presorted_set& from) : _reserve(from._reserve),
-		_sz(from._sz), _rsz(from._rsz), _arr(new FieldTrait[_rsz]), _ftha(from._ftha)
-			{ memcpy(_arr, from._arr, _sz * sizeof(FieldTrait)); }
+		_sz(from._sz), _rsz(from._rsz), _arr(from._arr ? new FieldTrait[_rsz] : nullptr), _ftha(from._ftha)
+			{ if (_arr) memcpy(_arr, from._arr, _sz * sizeof(FieldTrait)); }
 
 	/*! ctor - initialise an empty set; defer memory allocation;
 	  \param sz number of elements to initially allocate
